@@ -27,8 +27,9 @@ package gadget_test
 //     (unless content is ignored by option)
 //  C2 structStart <= contentStart and contentStart+contentSize <= structStart+structSize
 //  C3 contents of one structure are pairwise disjoint
-//  C4 the reserved content size is at least the size of the image file; content
-//     with an explicit offset sits at structStart+offset
+//  C4 the reserved content size is at least the size of the image file and equals
+//     the declared size if there is one; content with an explicit offset sits at
+//     structStart+offset
 //  W1 offset-write relative to a named structure: the 4 byte pointer lies inside
 //     that laid out structure; absolute: inside the laid out volume
 //
@@ -362,6 +363,9 @@ func c38CheckVolume(c c38Case, gv c38Vol, lv *gadget.LaidOutVolume, files map[st
 			if fsz, ok := files[gc.Image]; ok && uint64(fsz) > sz {
 				return verifkit.Violatef("volume %s: structure #%d content #%d reserves %d bytes for image %q of %d bytes", gv.Name, sp.yamlIdx, lc.Index, sz, gc.Image, fsz)
 			}
+			if dsz, ok := c38Parse(gc.Size); ok && dsz != 0 && dsz != sz {
+				return verifkit.Violatef("volume %s: structure #%d content #%d declares size %s but %d bytes are reserved", gv.Name, sp.yamlIdx, lc.Index, gc.Size, sz)
+			}
 			if off, ok := c38Parse(gc.Offset); ok {
 				f.explicitContent++
 				if s != sp.start+off {
@@ -412,10 +416,27 @@ func c38CheckVolume(c c38Case, gv c38Vol, lv *gadget.LaidOutVolume, files map[st
 	return nil
 }
 
-// TEMPORARY
-func c38Debug(stage string, err error) {
-	if os.Getenv("C38_DEBUG") != "" {
-		fmt.Fprintf(os.Stderr, "REJ %s: %v\n", stage, err)
+// c38Root is where the per-case gadget directories are made: a per-process
+// directory on tmpfs when there is one (the files are sparse, only their size
+// matters; a busy disk otherwise dominates the run time), else TMPDIR.  It is
+// removed when the test ends.
+var c38RootDir string
+
+func c38Root() string {
+	if c38RootDir == "" {
+		c38RootDir = os.TempDir()
+	}
+	return c38RootDir
+}
+
+func c38SetupRoot(t *testing.T) {
+	for _, base := range []string{"/dev/shm", ""} {
+		d, err := os.MkdirTemp(base, fmt.Sprintf("verif-c38-%d-", os.Getpid()))
+		if err == nil {
+			c38RootDir = d
+			t.Cleanup(func() { os.RemoveAll(d); c38RootDir = "" })
+			return
+		}
 	}
 }
 
@@ -423,7 +444,7 @@ func c38Run(c c38Case) (verifkit.Outcome, error) {
 	o := verifkit.Outcome{}
 	label := func(l string) { o.Labels = append(o.Labels, l) }
 
-	dir, err := os.MkdirTemp("", "c38-")
+	dir, err := os.MkdirTemp(c38Root(), "c38-")
 	if err != nil {
 		panic("HARNESS: " + err.Error())
 	}
@@ -459,17 +480,14 @@ func c38Run(c c38Case) (verifkit.Outcome, error) {
 
 	info, err := gadget.InfoFromGadgetYaml(doc, model)
 	if err != nil {
-		c38Debug("yaml", err)
 		label("rejected-yaml")
 		return o, nil
 	}
 	if err := gadget.Validate(info, model, nil); err != nil {
-		c38Debug("rules", err)
 		label("rejected-rules")
 		return o, nil
 	}
 	if err := gadget.ValidateContent(info, dir, ""); err != nil {
-		c38Debug("content", err)
 		label("rejected-content")
 		return o, nil
 	}
@@ -490,7 +508,6 @@ func c38Run(c c38Case) (verifkit.Outcome, error) {
 		}
 		lv, err := gadget.LayoutVolume(vol, gadget.OnDiskStructsFromGadget(vol), opts)
 		if err != nil {
-			c38Debug("layout", err)
 			label("rejected-layout")
 			continue
 		}
@@ -551,13 +568,15 @@ type c38Gen struct {
 	modelHint int
 }
 
+var c38TwoBits = rapid.IntRange(0, 3)
+
 // uniform draws a number in [0,n), n <= 1024, close to uniformly: rapid's integer
 // generators favour small values by design, which is wanted for sizes but not
 // for weighted decisions.  Two bits per draw keep that bias below a few percent.
 func (g *c38Gen) uniform(label string, n int) int {
 	v := 0
 	for i := 0; i < 5; i++ {
-		v = v<<2 | rapid.IntRange(0, 3).Draw(g.t, label)
+		v = v<<2 | c38TwoBits.Draw(g.t, label)
 	}
 	return v * n / 1024
 }
@@ -1143,6 +1162,7 @@ func c38Generate(t *rapid.T) c38Case {
 }
 
 func TestVerifC38Layout(t *testing.T) {
+	c38SetupRoot(t)
 	verifkit.Check(t, verifkit.Spec[c38Case]{
 		ID: "C38", Engine: "layout",
 		Gen: c38Generate,
